@@ -152,6 +152,13 @@ func (d *Driver) signal(rec *Record, a Action, sid uint32, proxy, helper interfa
 	rec.Legs = append(rec.Legs, leg("event", 2, []*wg.Ty{a.Payload}, []*wg.Val{payloadVal(vals)}, data, f != nil, got))
 }
 
+// firstErr keeps the first thing that went wrong in an action.
+func firstErr(rec *Record, msg string) {
+	if rec.Err == "" {
+		rec.Err = msg
+	}
+}
+
 func lenPrefixed(s string) []byte {
 	b := make([]byte, 4, 4+len(s))
 	binary.LittleEndian.PutUint32(b, uint32(len(s)))
@@ -189,9 +196,9 @@ func (d *Driver) property(rec *Record, a Action, sid uint32, proxy, helper inter
 		var out []reflect.Value
 		var got []*wg.Val
 		if !call(func() { out = method(proxy, a.Proxy).Call(nil) }) {
-			rec.Err = "timeout: getter did not return"
+			firstErr(rec, "timeout: getter did not return")
 		} else if e := errOf(out[1]); e != "" {
-			rec.Err = "get-error: " + e
+			firstErr(rec, "get-error: "+e)
 		} else {
 			got = []*wg.Val{Read(out[0], t)}
 		}
